@@ -274,7 +274,7 @@ def tlc_run(module, cfg, tag, timeout=3000, workers=None, env_extra=None, simula
         return st, outp
     md = os.path.join(WORK, "tlc", "md-%s-%d" % (tag, os.getpid()))
     cmd = ["timeout", str(timeout), "tlc", "-workers", str(workers or TLC_WORKERS), "-metadir", md,
-           "-cleanup", "-noGenerateSpecTE"]
+           "-cleanup", "-noGenerateSpecTE", "-checkpoint", "0"]      # (no checkpoints: StateDeque cannot write them, and no run is resumed)
     if coverage:
         cmd += ["-coverage", "1"]
     if simulate:
